@@ -26,6 +26,7 @@ from .core import ROOT, SCRATCH, dump
 PY = sys.executable
 LEVEL = "model_checking"
 KNOWN_FILE = os.path.join(ROOT, "known_findings.json")
+OUT = os.environ.get("VERIF_OUT") or ROOT  # evidence/ and replays/ go here (the mutant driver redirects them)
 CORES = os.cpu_count() or 4
 
 
@@ -202,7 +203,7 @@ def run_check(pid: str, tier: str, seed: int, jobs: int) -> int:
                 rc = max(rc, 2)
                 continue
             h = hashlib.sha1(sig.encode()).hexdigest()[:10]
-            rpath = os.path.join(ROOT, "replays", f"{pid}-{h}.json")
+            rpath = os.path.join(OUT, "replays", f"{pid}-{h}.json")
             dump(rpath, {"property": pid, "signature": sig, "reproduced": how, "cfg": {k: cfg[k] for k in cfg if k != "scratch"},
                          "case": v["case"], "msg": v.get("msg"), "expected": v.get("expected"), "observed": v.get("observed"),
                          "occurrences": vcount[sig]})
@@ -245,7 +246,7 @@ def run_check(pid: str, tier: str, seed: int, jobs: int) -> int:
             "wall_s": round(time.time() - t0, 2),
             "violations": len(reported),
         }
-        epath = os.path.join(ROOT, "evidence", f"{pid}.json")
+        epath = os.path.join(OUT, "evidence", f"{pid}.json")
         dump(epath, ev)
         err = validate_evidence(epath)
         if err:
